@@ -5,7 +5,9 @@
   pairing defect; `setup` publishes `g·monomial(β⃗)`; refusals; shapes.
 -/
 import PCV.Proofs.PST13
+import PCV.Proofs.PST13LC
 import PCV.Proofs.CombCompleteSetup
+import PCV.Proofs.QuerySet
 set_option linter.unusedSectionVars false
 set_option linter.unusedVariables false
 
@@ -239,6 +241,557 @@ theorem commit_plain_ok (ck : CK F) (p : MVPoly F) (rng : Bool) (draws : List F)
   rfl
 
 end Dec
+
+/-! ### how single components move the pairing defect -/
+
+section Shift
+variable [DecidableEq F]
+
+theorem rhsSum_append (h : F) (bH z : List F) (i : Nat) (a b : List F) :
+    rhsSum h bH z i (a ++ b) = rhsSum h bH z i a + rhsSum h bH z (i + a.length) b := by
+  induction a generalizing i with
+  | nil => simp [rhsSum]
+  | cons w a ih =>
+    simp only [List.cons_append, rhsSum, ih (i + 1), List.length_cons]
+    rw [show i + 1 + a.length = i + (a.length + 1) by omega]; ring
+
+/-- a witness element moved by `δ` moves the right-hand pairing sum by `δ·(βⱼh − zⱼh)` -/
+theorem rhsSum_replace (h : F) (bH z : List F) (pre post : List F) (x δ : F) :
+    rhsSum h bH z 0 (pre ++ (x + δ) :: post) = rhsSum h bH z 0 (pre ++ x :: post)
+      + δ * (getD' bH pre.length 0 - h * getD' z pre.length 0) := by
+  simp only [rhsSum_append, rhsSum, Nat.zero_add]
+  ring
+
+/-- **witness element**: `Wⱼ + δ` moves the defect by `−δ·(βⱼh − zⱼh)` -/
+theorem defect_witness_shift (vk : VK F) (C V : F) (z pre post : List F) (x δ : F) (rv : Option F) :
+    defectCombined vk C V z ⟨pre ++ (x + δ) :: post, rv⟩
+      = defectCombined vk C V z ⟨pre ++ x :: post, rv⟩
+        - δ * (getD' vk.betaH pre.length 0 - vk.h * getD' z pre.length 0) := by
+  unfold defectCombined
+  simp only [rhsSum_replace]
+  ring
+
+/-- **`random_v`**: `rv + δ` moves the defect by `−γ·δ·h`; dropping `Some rv` moves it by `γ·rv·h` -/
+theorem defect_rv_shift (vk : VK F) (C V : F) (z w : List F) (x δ : F) :
+    defectCombined vk C V z ⟨w, some (x + δ)⟩ = defectCombined vk C V z ⟨w, some x⟩ - vk.gammaG * δ * vk.h
+      ∧ defectCombined vk C V z ⟨w, none⟩ = defectCombined vk C V z ⟨w, some x⟩ + vk.gammaG * x * vk.h := by
+  unfold defectCombined
+  simp only [rvVal]
+  constructor <;> ring
+
+theorem rhsSum_point (h : F) (bH : List F) (zpre zpost : List F) (a δ : F) (i : Nat) (w : List F) :
+    rhsSum h bH (zpre ++ (a + δ) :: zpost) i w = rhsSum h bH (zpre ++ a :: zpost) i w
+      - h * δ * (if i ≤ zpre.length then getD' w (zpre.length - i) 0 else 0) := by
+  induction w generalizing i with
+  | nil => simp [rhsSum, getD']
+  | cons x w ih =>
+    simp only [rhsSum, ih (i + 1)]
+    by_cases hi : i = zpre.length
+    · subst hi
+      have h1 : getD' (zpre ++ (a + δ) :: zpost) zpre.length 0 = a + δ := by simp [getD']
+      have h2 : getD' (zpre ++ a :: zpost) zpre.length 0 = a := by simp [getD']
+      rw [h1, h2]
+      simp [getD']
+      ring
+    · have hget : getD' (zpre ++ (a + δ) :: zpost) i 0 = getD' (zpre ++ a :: zpost) i 0 := by
+        unfold getD'
+        by_cases hlt : i < zpre.length
+        · rw [List.getElem?_append_left hlt, List.getElem?_append_left hlt]
+        · have hge : zpre.length ≤ i := by omega
+          rw [List.getElem?_append_right hge, List.getElem?_append_right hge]
+          have : i - zpre.length ≠ 0 := by omega
+          obtain ⟨k, hk⟩ := Nat.exists_eq_succ_of_ne_zero this
+          rw [hk]; simp
+      rw [hget]
+      by_cases hlt : i < zpre.length
+      · have h1 : i ≤ zpre.length := by omega
+        have h2 : i + 1 ≤ zpre.length := by omega
+        simp only [h1, h2, if_true]
+        have : zpre.length - i = (zpre.length - (i + 1)) + 1 := by omega
+        rw [this]
+        simp [getD'] <;> ring
+      · have h1 : ¬ i ≤ zpre.length := by omega
+        have h2 : ¬ i + 1 ≤ zpre.length := by omega
+        simp [h1, h2]
+
+/-- **point coordinate**: `zⱼ + δ` (claim held fixed) moves the defect by `+Wⱼ·δ·h` -/
+theorem defect_point_shift (vk : VK F) (C V : F) (zpre zpost : List F) (a δ : F) (π : Proof F) :
+    defectCombined vk C V (zpre ++ (a + δ) :: zpost) π
+      = defectCombined vk C V (zpre ++ a :: zpost) π + vk.h * δ * getD' π.w zpre.length 0 := by
+  unfold defectCombined
+  rw [rhsSum_point]
+  simp
+  ring
+
+/-- **key elements**: `g + δ` moves the defect by `−δ·V·h`; `γg + δ` by `−δ·rv·h`; `beta_h[j] + δ` by
+`−Wⱼ·δ`; `h + δ` by `δ·(C − g·V − γ·rv + Σ Wᵢzᵢ)` -/
+theorem defect_key_g (vk : VK F) (C V δ : F) (z : List F) (π : Proof F) :
+    defectCombined { vk with g := vk.g + δ } C V z π = defectCombined vk C V z π - δ * V * vk.h := by
+  unfold defectCombined; ring
+
+theorem defect_key_gamma (vk : VK F) (C V δ : F) (z : List F) (π : Proof F) :
+    defectCombined { vk with gammaG := vk.gammaG + δ } C V z π
+      = defectCombined vk C V z π - δ * rvVal π.rv * vk.h := by
+  unfold defectCombined; ring
+
+theorem defect_key_h (vk : VK F) (C V δ : F) (z : List F) (π : Proof F) :
+    defectCombined { vk with h := vk.h + δ } C V z π
+      = defectCombined vk C V z π + δ * (C - vk.g * V - vk.gammaG * rvVal π.rv + wz z 0 π.w) := by
+  unfold defectCombined
+  simp only [rhsSum_eq]
+  ring
+
+theorem dotB_replace (pre post : List F) (x δ : F) (i : Nat) (w : List F) :
+    dotB (pre ++ (x + δ) :: post) i w = dotB (pre ++ x :: post) i w
+      + δ * (if i ≤ pre.length then getD' w (pre.length - i) 0 else 0) := by
+  induction w generalizing i with
+  | nil => simp [dotB, getD']
+  | cons y w ih =>
+    simp only [dotB, ih (i + 1)]
+    by_cases hi : i = pre.length
+    · subst hi
+      have h1 : getD' (pre ++ (x + δ) :: post) pre.length 0 = x + δ := by simp [getD']
+      have h2 : getD' (pre ++ x :: post) pre.length 0 = x := by simp [getD']
+      rw [h1, h2]
+      simp [getD']
+      ring
+    · have hget : getD' (pre ++ (x + δ) :: post) i 0 = getD' (pre ++ x :: post) i 0 := by
+        unfold getD'
+        by_cases hlt : i < pre.length
+        · rw [List.getElem?_append_left hlt, List.getElem?_append_left hlt]
+        · have hge : pre.length ≤ i := by omega
+          rw [List.getElem?_append_right hge, List.getElem?_append_right hge]
+          have : i - pre.length ≠ 0 := by omega
+          obtain ⟨k, hk⟩ := Nat.exists_eq_succ_of_ne_zero this
+          rw [hk]; simp
+      rw [hget]
+      by_cases hlt : i < pre.length
+      · have h1 : i ≤ pre.length := by omega
+        have h2 : i + 1 ≤ pre.length := by omega
+        simp only [h1, h2, if_true]
+        have : pre.length - i = (pre.length - (i + 1)) + 1 := by omega
+        rw [this]
+        simp [getD'] <;> ring
+      · have h1 : ¬ i ≤ pre.length := by omega
+        have h2 : ¬ i + 1 ≤ pre.length := by omega
+        simp [h1, h2]
+
+theorem defect_key_betaH (vk : VK F) (C V : F) (pre post : List F) (x δ : F) (z : List F)
+    (π : Proof F) (hb : vk.betaH = pre ++ x :: post) :
+    defectCombined { vk with betaH := pre ++ (x + δ) :: post } C V z π
+      = defectCombined vk C V z π - δ * getD' π.w pre.length 0 := by
+  unfold defectCombined
+  simp only [rhsSum_eq, hb, dotB_replace]
+  simp
+  ring
+
+end Shift
+
+/-! ### shapes: witness counts, one proof per point label -/
+
+section Shape
+variable [DecidableEq F]
+
+theorem addHiding_length (look : Term → Except Err F) (ws : List F) (hws : List (MVPoly F))
+    (xs : List F) (h : addHiding look ws hws = .ok xs) : xs.length = ws.length := by
+  induction ws generalizing hws xs with
+  | nil => simp only [addHiding] at h; injection h with h; simp [← h]
+  | cons w ws ih =>
+    cases hws with
+    | nil => simp [addHiding] at h
+    | cons hw hws =>
+      simp only [addHiding] at h
+      split at h
+      · cases h
+      · split at h
+        · cases h
+        · rename_i xs' hxs
+          injection h with h
+          simp [← h, ih hws xs' hxs]
+
+/-- **every proof `open` returns has exactly one witness per variable of the key** (arbitrary key),
+and carries `random_v` exactly when the combined blinding polynomial is non-zero -/
+theorem openCombined_shape (ck : CK F) (nvp nvr : Nat) (p r : MVPoly F) (z : List F) (π : Proof F)
+    (h : openCombined ck nvp nvr p r z = .ok π) :
+    π.w.length = ck.numVars ∧ (π.rv.isSome = !isZeroMV r) := by
+  have h := openCombined_core ck nvp nvr p r z π h
+  unfold openCore at h
+  split at h
+  · cases h
+  · rename_i w hw
+    have hwl := msmAll_length _ _ _ hw
+    rw [resizeTo_length] at hwl
+    split at h
+    · rename_i hz
+      injection h with h
+      subst h
+      exact ⟨hwl, by simp [hz]⟩
+    · rename_i hz
+      split at h
+      · cases h
+      · rename_i w' hw'
+        split at h
+        · cases h
+        · injection h with h
+          subst h
+          exact ⟨by simp only; rw [addHiding_length _ _ _ _ hw', hwl], by simp [hz]⟩
+
+theorem open_shape (ck : CK F) (nvp nvr : Nat) (ps : List (MVPoly F)) (z : List F)
+    (rs : List (MVPoly F)) (ξs : List F) (π : Proof F) (h : PST.open ck nvp nvr ps z rs ξs = .ok π) :
+    π.w.length = ck.numVars := by
+  unfold PST.open at h
+  split at h
+  · cases h
+  · exact (openCombined_shape ck nvp nvr _ _ z π h).1
+
+theorem batchOpenGroups_shape (ck : CK F) (trips : List (Trip F)) (groups : List (Group F))
+    (ξs : List F) (πs : List (Proof F)) (rest : List F)
+    (h : batchOpenGroups ck trips groups ξs = .ok (πs, rest)) :
+    πs.length = groups.length ∧ ∀ π ∈ πs, π.w.length = ck.numVars := by
+  induction groups generalizing ξs πs with
+  | nil =>
+    simp only [batchOpenGroups] at h
+    injection h with h
+    injection h with h1 h2
+    subst h1
+    exact ⟨rfl, by intro π hπ; cases hπ⟩
+  | cons g gs ih =>
+    simp only [batchOpenGroups] at h
+    split at h
+    · cases h
+    · rename_i ts hts
+      split at h
+      · cases h
+      · rename_i r hr
+        split at h
+        · cases h
+        · rename_i rr hrr
+          injection h with h
+          injection h with h1 h2
+          subst h1; subst h2
+          obtain ⟨i1, i2⟩ := ih r.2 rr.1 (by rw [hrr])
+          refine ⟨by simp [i1], ?_⟩
+          intro π hπ
+          rcases List.mem_cons.1 hπ with rfl | hπ
+          · unfold openL openRest at hr
+            split at hr
+            · cases hr
+            · split at hr
+              · cases hr
+              · rename_i π' hπ'
+                injection hr with hr
+                rw [← hr]
+                exact (openCombined_shape ck _ _ _ _ _ π' hπ').1
+          · exact i2 π hπ
+
+theorem ltLabel_irrefl' : ∀ a : Label, QS.ltLabel a a = false := by
+  intro a
+  induction a with
+  | nil => rfl
+  | cons x xs ih => simp [QS.ltLabel, ih]
+
+theorem mem_groupInsert (q : Query F) (gs : List (Group F)) (pl : Label) :
+    pl ∈ (groupInsert q gs).map (·.1) ↔ pl = q.2.1 ∨ pl ∈ gs.map (·.1) := by
+  induction gs with
+  | nil => simp [groupInsert]
+  | cons g gs ih =>
+    simp only [groupInsert]
+    split
+    · simp
+    · split
+      · rename_i _ heq
+        simp only [List.map_cons, List.mem_cons]
+        constructor
+        · rintro (h | h)
+          · exact Or.inr (Or.inl h)
+          · exact Or.inr (Or.inr h)
+        · rintro (h | h | h)
+          · exact Or.inl (by rw [h, heq])
+          · exact Or.inl h
+          · exact Or.inr h
+      · simp only [List.map_cons, List.mem_cons, ih]
+        constructor
+        · rintro (h | h | h)
+          · exact Or.inr (Or.inl h)
+          · exact Or.inl h
+          · exact Or.inr (Or.inr h)
+        · rintro (h | h | h)
+          · exact Or.inr (Or.inl h)
+          · exact Or.inl h
+          · exact Or.inr (Or.inr h)
+
+theorem sorted_groupInsert (q : Query F) (gs : List (Group F))
+    (h : (gs.map (·.1)).Pairwise (fun a b => QS.ltLabel a b = true)) :
+    ((groupInsert q gs).map (·.1)).Pairwise (fun a b => QS.ltLabel a b = true) := by
+  induction gs with
+  | nil => simp [groupInsert]
+  | cons g gs ih =>
+    simp only [List.map_cons, List.pairwise_cons] at h
+    simp only [groupInsert]
+    split
+    · rename_i hlt
+      simp only [List.map_cons, List.pairwise_cons, List.mem_cons]
+      refine ⟨?_, h⟩
+      rintro b (rfl | hb)
+      · exact hlt
+      · exact QS.ltLabel_trans _ _ _ hlt (h.1 b hb)
+    · split
+      · simp only [List.map_cons, List.pairwise_cons]
+        exact h
+      · rename_i hnlt hne
+        simp only [List.map_cons, List.pairwise_cons]
+        refine ⟨?_, ih h.2⟩
+        intro b hb
+        rcases (mem_groupInsert q gs b).1 hb with rfl | hb
+        · exact QS.ltLabel_total _ _ hne (by simpa using hnlt)
+        · exact h.1 b hb
+
+/-- the point-label groups: strictly sorted (so pairwise distinct), and exactly the point labels
+that occur in the query set -/
+theorem groupQueries_labels (qs : List (Query F)) :
+    ((groupQueries qs).map (·.1)).Pairwise (fun a b => QS.ltLabel a b = true)
+      ∧ ((groupQueries qs).map (·.1)).Nodup
+      ∧ ∀ pl, pl ∈ (groupQueries qs).map (·.1) ↔ ∃ q ∈ qs, q.2.1 = pl := by
+  have key : ∀ (acc : List (Group F)),
+      (acc.map (·.1)).Pairwise (fun a b => QS.ltLabel a b = true) →
+      ((qs.foldl (fun acc q => groupInsert q acc) acc).map (·.1)).Pairwise (fun a b => QS.ltLabel a b = true)
+        ∧ ∀ pl, pl ∈ (qs.foldl (fun acc q => groupInsert q acc) acc).map (·.1)
+            ↔ (pl ∈ acc.map (·.1) ∨ ∃ q ∈ qs, q.2.1 = pl) := by
+    induction qs with
+    | nil => intro acc h; exact ⟨h, by simp⟩
+    | cons q qs ih =>
+      intro acc h
+      simp only [List.foldl_cons]
+      obtain ⟨i1, i2⟩ := ih (groupInsert q acc) (sorted_groupInsert q acc h)
+      refine ⟨i1, fun pl => ?_⟩
+      rw [i2, mem_groupInsert]
+      constructor
+      · rintro ((h | h) | ⟨q', hq', h⟩)
+        · exact Or.inr ⟨q, by simp, h.symm⟩
+        · exact Or.inl h
+        · exact Or.inr ⟨q', by simp [hq'], h⟩
+      · rintro (h | ⟨q', hq', h⟩)
+        · exact Or.inl (Or.inr h)
+        · rcases List.mem_cons.1 hq' with rfl | hq'
+          · exact Or.inl (Or.inl h.symm)
+          · exact Or.inr ⟨q', hq', h⟩
+  obtain ⟨k1, k2⟩ := key [] (by simp)
+  refine ⟨k1, ?_, fun pl => by rw [groupQueries, k2]; simp⟩
+  unfold groupQueries
+  refine List.Pairwise.imp ?_ k1
+  intro a b hab heq
+  rw [heq, ltLabel_irrefl'] at hab
+  cases hab
+
+end Shape
+
+/-! ### `setup` publishes `g · monomial(β⃗)` -/
+
+section Setup
+variable [DecidableEq F]
+
+theorem evalTerm_counts_nil (L : List Nat) (x : List F) :
+    evalTerm (L.map (fun v => (v, ([] : List Nat).count v))) x = 1 := by
+  induction L with
+  | nil => rfl
+  | cons v L ih => simp only [List.map_cons, evalTerm_cons, List.count_nil, fpow_zero, ih]; ring
+
+theorem evalTerm_counts_cons (L : List Nat) (hL : L.Nodup) (e : Nat) (m : List Nat) (x : List F) :
+    evalTerm (L.map (fun v => (v, (e :: m).count v))) x
+      = (if e ∈ L then getD' x e 0 else 1) * evalTerm (L.map (fun v => (v, m.count v))) x := by
+  induction L with
+  | nil => simp
+  | cons v L ih =>
+    simp only [List.nodup_cons] at hL
+    simp only [List.map_cons, evalTerm_cons, ih hL.2, List.count_cons, List.mem_cons]
+    by_cases hve : v = e
+    · subst hve
+      simp only [beq_self_eq_true, if_true, hL.1, if_false, true_or, fpow_succ']
+      ring
+    · have hev : ¬ e = v := fun hx => hve hx.symm
+      have hbeq : (v == e) = false := by simpa using hve
+      simp only [hbeq, Bool.false_eq_true, if_false, Nat.add_zero, hev, false_or]
+      ring
+
+/-- `term.iter().map(|e| betas[*e]).product()` is the monomial `SparseTerm::new(counts)` at `β⃗` -/
+theorem prodBetas_eq (nv : Nat) (betas : List F) (m : List Nat) (h : ∀ e ∈ m, e < nv) :
+    prodBetas betas m = evalTerm (termOfMultiset nv m) betas := by
+  unfold termOfMultiset
+  rw [evalTerm_new]
+  induction m with
+  | nil => simp only [prodBetas, evalTerm_counts_nil]
+  | cons e m ih =>
+    rw [evalTerm_counts_cons _ List.nodup_range, ← ih (fun x hx => h x (by simp [hx]))]
+    have : e ∈ List.range nv := List.mem_range.2 (h e (by simp))
+    simp only [prodBetas, this, if_true]
+
+/-- the invariant of the `BTreeMap` under construction: keys built by `SparseTerm::new`, each value
+the prescribed function of its key -/
+def MapOk (f : Term → F) (m : List (Term × F)) : Prop :=
+  ∀ kv ∈ m, Term.wf kv.1 = true ∧ kv.2 = f kv.1
+
+theorem mapInsert_ok (f : Term → F) (k : Term) (hk : Term.wf k = true) (m : List (Term × F))
+    (hm : MapOk f m) : MapOk f (mapInsert k (f k) m)
+      ∧ ∀ t, t ∈ (mapInsert k (f k) m).map (·.1) ↔ (t = k ∨ t ∈ m.map (·.1)) := by
+  induction m with
+  | nil =>
+    refine ⟨?_, by simp [mapInsert]⟩
+    intro kv hkv
+    simp only [mapInsert, List.mem_singleton] at hkv
+    subst hkv
+    exact ⟨hk, rfl⟩
+  | cons kv m ih =>
+    have hm' : MapOk f m := fun x hx => hm x (by simp [hx])
+    obtain ⟨i1, i2⟩ := ih hm'
+    simp only [mapInsert]
+    split
+    · refine ⟨?_, by simp⟩
+      intro x hx
+      rcases List.mem_cons.1 hx with rfl | hx
+      · exact ⟨hk, rfl⟩
+      · exact hm x hx
+    · split
+      · rename_i _ heq
+        have hkk : k = kv.1 := Term.cmp_eq hk (hm kv (by simp)).1 heq
+        refine ⟨?_, ?_⟩
+        · intro x hx
+          rcases List.mem_cons.1 hx with rfl | hx
+          · exact ⟨(hm kv (by simp)).1, by rw [hkk]⟩
+          · exact hm' x hx
+        · intro t
+          simp only [List.map_cons, List.mem_cons]
+          rw [hkk]
+          tauto
+      · refine ⟨?_, ?_⟩
+        · intro x hx
+          rcases List.mem_cons.1 hx with rfl | hx
+          · exact hm x (by simp)
+          · exact i1 x hx
+        · intro t
+          simp only [List.map_cons, List.mem_cons, i2]
+          tauto
+
+theorem mapOfList_ok (f : Term → F) (l : List (Term × F))
+    (hl : ∀ kv ∈ l, Term.wf kv.1 = true ∧ kv.2 = f kv.1) :
+    MapOk f (mapOfList l) ∧ ∀ t, t ∈ (mapOfList l).map (·.1) ↔ t ∈ l.map (·.1) := by
+  have key : ∀ (acc : List (Term × F)), MapOk f acc →
+      MapOk f (l.foldl (fun m kv => mapInsert kv.1 kv.2 m) acc)
+        ∧ ∀ t, t ∈ (l.foldl (fun m kv => mapInsert kv.1 kv.2 m) acc).map (·.1)
+            ↔ (t ∈ acc.map (·.1) ∨ t ∈ l.map (·.1)) := by
+    induction l with
+    | nil => intro acc h; exact ⟨h, by simp⟩
+    | cons kv l ih =>
+      intro acc hacc
+      obtain ⟨hw, hv⟩ := hl kv (by simp)
+      simp only [List.foldl_cons]
+      rw [hv]
+      obtain ⟨j1, j2⟩ := mapInsert_ok f kv.1 hw acc hacc
+      obtain ⟨i1, i2⟩ := ih (fun x hx => hl x (by simp [hx])) _ j1
+      refine ⟨i1, fun t => ?_⟩
+      rw [i2, j2]
+      simp only [List.map_cons, List.mem_cons]
+      tauto
+  obtain ⟨k1, k2⟩ := key [] (fun x hx => by cases hx)
+  exact ⟨k1, fun t => by rw [mapOfList, k2]; simp⟩
+
+theorem mapGet_of_ok (f : Term → F) (m : List (Term × F)) (hm : MapOk f m) (t : Term)
+    (ht : t ∈ m.map (·.1)) : mapGet m t = some (f t) := by
+  induction m with
+  | nil => cases ht
+  | cons kv m ih =>
+    simp only [mapGet]
+    by_cases hk : kv.1 = t
+    · rw [if_pos hk, (hm kv (by simp)).2, hk]
+    · rw [if_neg hk]
+      simp only [List.map_cons, List.mem_cons] at ht
+      rcases ht with ht | ht
+      · exact absurd ht.symm hk
+      · exact ih (fun x hx => hm x (by simp [hx])) ht
+
+/-- **What `setup` publishes.**  Whenever `setup` answers: `num_vars ≥ 1`, `max_degree ≥ 1`; every
+element of `powers_of_g` is `g` times its monomial at the trapdoor `β⃗`; the map is indexed by
+exactly the monomials (`SparseTerm::new` results) in `num_vars` variables of total degree
+`≤ max_degree`, so a lookup of such a monomial returns `g·t(β⃗)`; `beta_h[i] = βᵢ·h`; row `i` of
+`powers_of_gamma_g` is `γ·βᵢ, …, γ·βᵢ^(D+1)`; `gamma_g`, `h` and the size fields are as given. -/
+theorem setup_spec (D nv : Nat) (betas : List F) (g γ h : F) (pp : UParams F)
+    (hs : setup D nv betas g γ h = .ok pp) :
+    1 ≤ nv ∧ 1 ≤ D
+    ∧ (∀ kv ∈ pp.powersOfG, kv.2 = g * evalTerm kv.1 betas)
+    ∧ (∀ t, t ∈ pp.powersOfG.map (·.1)
+        ↔ (Term.wf t = true ∧ Term.varsBelow nv t = true ∧ Term.degree t ≤ D))
+    ∧ (∀ t, Term.wf t = true → Term.varsBelow nv t = true → Term.degree t ≤ D →
+        mapGet pp.powersOfG t = some (g * evalTerm t betas))
+    ∧ pp.betaH = (betas.take nv).map (fun b => h * b)
+    ∧ pp.powersOfGammaG = (List.range nv).map (fun i => gammaRow γ (getD' betas i 0) (D + 1) 1)
+    ∧ pp.gammaG = γ ∧ pp.h = h ∧ pp.numVars = nv ∧ pp.maxDegree = D := by
+  unfold setup at hs
+  split at hs
+  · cases hs
+  · rename_i hnv
+    split at hs
+    · cases hs
+    · rename_i hD
+      have hnv' : 1 ≤ nv := by omega
+      have hD' : 1 ≤ D := by omega
+      split at hs
+      · cases hs
+      · rename_i ms hms
+        injection hs with hs
+        subst hs
+        -- the multisets and the term list they index
+        obtain ⟨ms0, hms0, _, hmem0⟩ := Comb.multisetsFrom_spec nv D hnv' D 1 (Nat.le_refl _) (by omega)
+        have hmseq : ms0 = ms := by
+          unfold setupMultisets at hms
+          rw [hms0] at hms
+          injection hms
+        subst hmseq
+        have hlt : ∀ m ∈ ms0, ∀ x ∈ m, x < nv := by
+          intro m hm
+          obtain ⟨k, _, _, hk3⟩ := (hmem0 m).1 hm
+          exact (Comb.isSel_props nv D k m hk3).2.1
+        obtain ⟨l, hl, _, hlmem⟩ := Comb.setupTerms_general nv D hnv' hD'
+        have hl' : l = ms0.map (termOfMultiset nv) ++ [Term.new []] := by
+          unfold setupTerms at hl
+          rw [hms] at hl
+          injection hl with hl
+          exact hl.symm
+        have hnew : Term.new [] = [] := rfl
+        -- every listed pair is (wf key, g · key(β))
+        have hpairs : ∀ kv ∈ ms0.map (fun m => (termOfMultiset nv m, g * prodBetas betas m))
+            ++ [(Term.new [], g)], Term.wf kv.1 = true ∧ kv.2 = g * evalTerm kv.1 betas := by
+          intro kv hkv
+          rcases List.mem_append.1 hkv with hkv | hkv
+          · obtain ⟨m, hm, rfl⟩ := List.mem_map.1 hkv
+            have hin : termOfMultiset nv m ∈ l := by
+              rw [hl']; exact List.mem_append.2 (Or.inl (List.mem_map.2 ⟨m, hm, rfl⟩))
+            exact ⟨((hlmem _).1 hin).1, by simp only; rw [prodBetas_eq nv betas m (hlt m hm)]⟩
+          · simp only [List.mem_singleton] at hkv
+            subst hkv
+            exact ⟨rfl, by simp [hnew]⟩
+        obtain ⟨hok, hkeys⟩ := mapOfList_ok (fun t => g * evalTerm t betas) _ hpairs
+        have hkeys' : ∀ t, t ∈ (mapOfList (ms0.map (fun m => (termOfMultiset nv m, g * prodBetas betas m))
+            ++ [(Term.new [], g)])).map (·.1)
+              ↔ (Term.wf t = true ∧ Term.varsBelow nv t = true ∧ Term.degree t ≤ D) := by
+          intro t
+          rw [hkeys, ← hlmem t, hl']
+          simp only [List.map_append, List.map_map, List.map_cons, List.map_nil, List.mem_append,
+            List.mem_map, List.mem_singleton, Function.comp]
+        refine ⟨hnv', hD', fun kv hkv => (hok kv hkv).2, hkeys', ?_, rfl, rfl, rfl, rfl, rfl, rfl⟩
+        intro t h1 h2 h3
+        exact mapGet_of_ok _ _ hok t ((hkeys' t).2 ⟨h1, h2, h3⟩)
+
+theorem setup_refuses (D nv : Nat) (betas : List F) (g γ h : F) :
+    (nv < 1 → setup D nv betas g γ h = .error .invalidNumVars) ∧
+    (1 ≤ nv → D < 1 → setup D nv betas g γ h = .error .degreeIsZero) := by
+  constructor
+  · intro hnv; unfold setup; rw [if_pos hnv]
+  · intro hnv hD; unfold setup; rw [if_neg (by omega), if_pos hD]
+
+theorem trim_refuses (pp : UParams F) (s : Nat) (h : s > pp.maxDegree) :
+    trim pp s = .error .trimTooLarge := by
+  unfold trim; rw [if_pos h]
+
+end Setup
 
 end PST
 end PCV
